@@ -132,11 +132,34 @@ def r3_no_shared_framing_state(ck, cx):
     r5_per_connection_framer(ck, cx)
 
 
+def r4_only_checked_frames_execute(ck, cx):
+    ck.rule('R4', 'a request reaches the server callback (and so the datastore) only through a delivery that passed the frame check (shared with C07 R1)')
+    from .c07 import r1_r2
+    sub = type(ck)(ck.pid, ck.tier)
+    r1_r2(sub, cx)
+    for o in sub.obligations:
+        if o[0] == 'R1':
+            ck.obligations.append(('R4',) + tuple(o[1:]))
+    import re
+    seen = set()
+    for f in sub.findings:
+        if f.rule != 'R1' or not f.detail.startswith('delivery-without-checkFrame') or (f.construct, f.detail) in seen:
+            continue
+        seen.add((f.construct, f.detail))
+        if re.search(r'\[-128 \+ [^;\]]*function_code >= 0\]', f.detail):
+            # only codes >= 0x80 take the unchecked path: on a server they decode to IllegalFunctionRequest, which
+            # touches no datastore (the bogus exception reply is C07 / C09 matter, not a C12 violation)
+            ck.note('unchecked delivery restricted to function codes >= 0x80 (%s): cannot mutate a datastore' % f.construct)
+            continue
+        ck.finding('R4', f.construct, f.detail, f.loc, f.message + ' — a server executes whatever is delivered, including writes')
+
+
 def run(ck, tier):
     cx = Ctx()
     ck.guard(r1_containment, ck, cx, tier)
     ck.guard(r2_who_may_mutate, ck, cx)
     ck.guard(r3_no_shared_framing_state, ck, cx)
+    ck.guard(r4_only_checked_frames_execute, ck, cx)
     ck.assume('statements of the receive loops other than the framer call and the transport read are treated as non-raising (logging, attribute reads)')
     ck.assume('what a decoded-but-nonsensical PDU does inside decode() is shown to be contained, not absent; resource exhaustion is not decided')
     return cx.idx
